@@ -123,6 +123,10 @@ Section DocEq.
       | Some p => mem N.eqb (se_name s) (sf_reqs (sp_body p))
       | None => true
       end) (se_ops s).
+  (* type definitions and values of a written document carry the extension's name *)
+  Definition s_defs_owner_b (s : sextension ST SV M) : bool :=
+    forallb (fun kt : name * stypedef => N.eqb (std_extension (snd kt)) (se_name s)) (se_types s) &&
+    forallb (fun kv : name * svalue SV => N.eqb (sv_extension (snd kv)) (se_name s)) (se_values s).
 End DocEq.
 
 (* ---- 4. the bundled library ---- *)
